@@ -215,6 +215,10 @@ InstrViol(p, hd, pc) ==
                     ELSE "upval-range:" \o w
         U(u)     == IF u >= p.nup THEN {UpKey(nm)} ELSE {}
         J(t)     == JumpViol(p, hd, t, nm)
+        \* a conditional skip is followed by the jump it guards (the compiler emits <test> JMP; a JMP
+        \* to the next instruction may have been rewritten to NOP by patchCode)
+        TJ       == IF pc + 1 <= n - 1 /\ hd.h[pc + 2] /\ Op(p, pc + 1) \in {OP_JMP, OP_NOP} THEN {}
+                    ELSE {"test:" \o nm \o ":not-followed-by-JMP"}
         Open     == IF OpenOK(p, hd, pc) THEN {} ELSE {"open-window:" \o nm \o ":top-not-set-by-previous-instruction"}
     IN
     CASE o = OP_MOVE -> W(a, "A") \cup R(b, "B")
@@ -244,9 +248,9 @@ InstrViol(p, hd, pc) ==
       [] o = OP_CONCAT -> W(a, "A") \cup R(b, "B") \cup R(c, "C") \cup
                           (IF b > c THEN {"concat:B>C"} ELSE {})
       [] o = OP_JMP -> J(pc + 1 + bx - 131071)
-      [] o \in {OP_EQ, OP_LT, OP_LE} -> RK(b, "B") \cup RK(c, "C") \cup J(pc + 2)
-      [] o = OP_TEST -> R(a, "A") \cup J(pc + 2)
-      [] o = OP_TESTSET -> W(a, "A") \cup R(b, "B") \cup J(pc + 2)
+      [] o \in {OP_EQ, OP_LT, OP_LE} -> RK(b, "B") \cup RK(c, "C") \cup J(pc + 2) \cup TJ
+      [] o = OP_TEST -> R(a, "A") \cup J(pc + 2) \cup TJ
+      [] o = OP_TESTSET -> W(a, "A") \cup R(b, "B") \cup J(pc + 2) \cup TJ
       [] o = OP_CALL ->
             R(a, "A") \cup (IF b >= 2 THEN R(a + b - 1, "args(A+B-1)") ELSE {}) \cup
             (IF c >= 2 THEN W(a + c - 2, "results(A+C-2)") ELSE {}) \cup
